@@ -209,6 +209,7 @@ def step (st : St) (j : Json) : St × List String :=
       let c := parseCred d
       let (facts, cps) := sigFacts d
       let r := if jStr j "via" == "api" then apiVerifyVC cfg (cryptoOfK st.kinds facts cps) (envOf st j) (optBool j "option") c
+               else if jStr j "via" == "sig" then runChecks (signatureChecks cfg (cryptoOfK st.kinds facts cps) (envOf st j) (optInt j "at") c) c
                else verify cfg (cryptoOfK st.kinds facts cps) (envOf st j) (jBool j "allowUntrusted") (jBool j "checkSig") (optInt j "at") c
       (st, [showRes r])
     | _ => (st, ["unparseable"])
